@@ -278,6 +278,96 @@ def cond_scenario(beh, idx):
     return scenario("cond:%d" % idx, pools, nodes, pods, [], steps, tags, t0=0)
 
 
+# ------------------------------------------------------------------ in-memory protections over time (DisruptionMem.tla)
+def mem_expect(beh):
+    """Does the (un-weakened) model issue the command on x?  Independent re-computation used to cross-check TLC's output
+    and to label the systematic tours: protected at t = marked or latest nomination + window > t."""
+    w, m = beh["w"], beh["m"]
+    now, noms, marked, cand, decided = 0, [], False, None, False
+    for st in beh["steps"]:
+        a = st["a"]
+        if a == "Tick":
+            now += st["d"]
+        elif a == "Nominate":
+            noms.append(now)
+        elif a == "Mark":
+            marked = True
+        elif a == "Unmark":
+            marked = False
+        elif a == "Decide":
+            decided = True
+            cand = not (marked or (noms and max(noms) + w > now))
+            if m in EVENTUAL:
+                return cand
+        elif a == "WaitNominate":
+            noms.append(now + VD)
+        elif a == "WaitMark":
+            marked = True
+    if not decided:
+        return False
+    t = now + VD
+    return bool(cand and not (marked or (noms and max(noms) + w > t)))
+
+
+def mem_scenario(beh, idx):
+    """A behaviour of DisruptionMem.tla (protection updates at different instants, then one decision) -> a scenario."""
+    m, w = beh["m"], beh["w"]
+    if w % 2 or w < 10:
+        raise vlib.InfraError("nomination window %r not realisable (window = max(2*batchMax, 10 s))" % w)
+    pools, nodes, pods, pdbs = base(m)
+    steps, during, decide = [], [], None
+    for st in beh["steps"]:
+        a = st["a"]
+        if a == "Tick":
+            steps.append({"a": "Tick", "d": st["d"]})
+        elif a in ("Nominate", "Mark", "Unmark"):
+            steps.append({"a": a, "node": "x"})
+        elif a == "Decide":
+            decide = {"a": "Method", "method": m}
+            steps.append(decide)
+        elif a == "WaitNominate":
+            during.append({"a": "Nominate", "node": "x"})
+        elif a == "WaitMark":
+            during.append({"a": "Mark", "node": "x"})
+        else:
+            raise vlib.InfraError("unknown DisruptionMem step %r" % st)
+    if decide is not None and during:
+        decide["during"] = during
+    tags = {"kind": "mem", "method": m, "window": w, "issued": mem_expect(beh), "target": "x", "idx": idx,
+            "beh": " ".join("%s%s" % (st["a"][0] if st["a"] != "Unmark" else "u", st["d"] or "") for st in beh["steps"])}
+    return scenario("mem:%d:%s:w%d" % (idx, m, w), pools, nodes, pods, pdbs, steps, tags,
+                    options={"batchMaxSec": w // 2 if w > 10 else 5})
+
+
+def mem_tours(windows, methods=METHODS):
+    """Systematic interval tours: repeated nominations with clock steps in between and the decision placed in every
+    interval (before the first expiry, between expiries, last protected second, first free second, later); mark / unmark
+    sequences; protections arriving during the validation wait after earlier ones lapsed."""
+    N, M, Un, D = {"a": "Nominate", "d": 0}, {"a": "Mark", "d": 0}, {"a": "Unmark", "d": 0}, {"a": "Decide", "d": 0}
+    WN, WM = {"a": "WaitNominate", "d": 0}, {"a": "WaitMark", "d": 0}
+
+    def T(d):
+        return {"a": "Tick", "d": d}
+    out = []
+    for w in windows:
+        r = w // 2
+        seqs = []
+        for d in (r + 1, w - 1, w, w + 1, r + w - 1, r + w, r + w + 5):       # two nominations at 0 and r (inside the window)
+            seqs.append([N, T(r), N, T(d - r), D])
+        for d in (2 * r + w - 1, 2 * r + w):                                   # a chain of three
+            seqs.append([N, T(r), N, T(r), N, T(d - 2 * r), D])
+        seqs.append([N, T(w - 1), N, T(2), D])                                  # re-nominated in the last protected second
+        seqs.append([N, T(w), N, T(w - 1), D])                                  # nominated again right after expiry
+        seqs.append([N, T(w + 1), D, WN])                                       # expired, nominated again during the wait
+        seqs.append([N, T(r), N, T(w + r), D, WN])
+        seqs.append([N, T(w + 1), D])
+        seqs += [[M, T(5), Un, D], [M, Un, M, D], [M, T(3), Un, T(3), M, T(3), Un, T(1), D], [Un, D], [M, T(5), Un, T(5), D, WM],
+                 [M, N, T(w), Un, D], [N, M, T(w - 1), Un, D], [D, WM], [D, WN], [D]]
+        for m in methods:
+            out += [{"m": m, "w": w, "steps": s} for s in seqs]
+    return out
+
+
 # ------------------------------------------------------------------ running and summarising
 def record(run, scenarios, prefix="disruption", shards=None, procs=None):
     """Run the scenarios on the real code: `procs` driver processes in parallel (each scenario has its own world), every
